@@ -90,7 +90,8 @@ impl C02 {
             if let Some(t) = r {
                 ctx.count("wf:walked");
                 let got = from_lax_raw(&t);
-                ctx.check(same_lax_up_to_pair_order(&got, &want) && t.hypergraph.edges.len() == t.hypergraph.adjacency.len(), &format!("{}/juxtaposition/value/{}", api, class), || {
+                // (the raw copy zips label and incidence lists: lengths are compared separately)
+                ctx.check(same_lax_up_to_pair_order(&got, &want) && wf_lax(&t).is_empty(), &format!("{}/juxtaposition/value/{}", api, class), || {
                     json!({"input": input(), "observed": show_lax(&got), "expected_exactly": show_lax(&want)})
                 });
                 let ty = lib(ctx, "lax::source/target", class, &input, || (Arrow::source(&t), Arrow::target(&t)));
@@ -111,7 +112,7 @@ impl C02 {
             let y = lg.clone();
             if lib(ctx, "lax::tensor_assign", class, &input, || x.tensor_assign(y)).is_some() {
                 let got = from_lax_raw(&x);
-                ctx.check(same_lax_up_to_pair_order(&got, &want), &format!("lax::tensor_assign/juxtaposition/value/{}", class), || {
+                ctx.check(same_lax_up_to_pair_order(&got, &want) && wf_lax(&x).is_empty(), &format!("lax::tensor_assign/juxtaposition/value/{}", class), || {
                     json!({"input": input(), "observed": show_lax(&got), "expected": show_lax(&want)})
                 });
             }
@@ -122,14 +123,27 @@ impl C02 {
             ctx.check(l == r, &format!("lax::tensor/associative-on-the-nose/value/{}", class), || {
                 json!({"input": input(), "lhs": show_lax(&from_lax_raw(&l)), "rhs": show_lax(&from_lax_raw(&r))})
             });
+            let want3 = f.tensor(g).tensor(h);
+            for (side, x) in [("lhs", &l), ("rhs", &r)] {
+                let got = from_lax_raw(x);
+                ctx.check(same_lax_up_to_pair_order(&got, &want3) && wf_lax(x).is_empty(), &format!("lax::tensor/juxtaposition3/value/{}", class), || {
+                    json!({"input": input(), "side": side, "observed": show_lax(&got), "expected": show_lax(&want3)})
+                });
+            }
         }
+        // the unit: the identity on the unit object is the empty diagram
         let u = lax::OpenHypergraph::<u32, u64>::empty();
+        if let Some(iu) = lib(ctx, "lax::identity(unit)", class, &input, || <LOh<u32, u64> as Arrow>::identity(<LOh<u32, u64> as Monoidal>::unit())) {
+            ctx.check(from_lax_raw(&iu) == PLax::empty() && wf_lax(&iu).is_empty() && from_lax_raw(&u) == PLax::empty(), &format!("lax::identity(unit)/is-the-empty-diagram/value/{}", class), || {
+                json!({"observed": show_lax(&from_lax_raw(&iu))})
+            });
+        }
         let l = lib(ctx, "lax::tensor", class, &input, || lf.tensor(&u));
         let r = lib(ctx, "lax::tensor", class, &input, || u.tensor(&lf));
         if let (Some(l), Some(r)) = (l, r) {
             ctx.count("law:lax_unit");
-            ctx.check(l == lf, &format!("lax::tensor/right-unit-on-the-nose/value/{}", class), || json!({"input": input(), "observed": show_lax(&from_lax_raw(&l))}));
-            ctx.check(r == lf, &format!("lax::tensor/left-unit-on-the-nose/value/{}", class), || json!({"input": input(), "observed": show_lax(&from_lax_raw(&r))}));
+            ctx.check(l == lf && same_lax_up_to_pair_order(&from_lax_raw(&l), f) && wf_lax(&l).is_empty(), &format!("lax::tensor/right-unit-on-the-nose/value/{}", class), || json!({"input": input(), "observed": show_lax(&from_lax_raw(&l))}));
+            ctx.check(r == lf && same_lax_up_to_pair_order(&from_lax_raw(&r), f) && wf_lax(&r).is_empty(), &format!("lax::tensor/left-unit-on-the-nose/value/{}", class), || json!({"input": input(), "observed": show_lax(&from_lax_raw(&r))}));
         }
         ctx.sample(class, || json!({"kind": "lax", "f": show_lax(f), "g": show_lax(g)}));
     }
